@@ -122,6 +122,14 @@ CHECKS = {
             "malformed documents must exit non-zero without output.",
             "Trusts my transcription of docs/cli_api_usage.rst into a JSON Schema; behaviour comparison only for the structured class.",
             "DESIGN.md 3/C15"),
+    "C11": ("exploration",
+            "runtime monitoring: recorded-history checker (every call of random call histories vs fresh-process goldens) + K-CACHE memo provenance monitor + class-level state invariant",
+            "Random histories of compile / decompile calls in one process (reused compiler objects, input objects handed in again, failing "
+            "and repeated inputs, gc and graph allocation bursts to recycle id()s) are recorded; every call's result record must equal the "
+            "record a fresh interpreter computes for the same input. K-CACHE records for each memo dict the graph it was made for and "
+            "re-computes every lookup answered from a dict inherited through a recycled id.",
+            "Histories are sampled; id() recycling is provoked and counted, not forced. Messages of exceptions are compared with addresses masked.",
+            "DESIGN.md 3/C11"),
 }
 
 NOT_YET = {
